@@ -55,6 +55,12 @@ func main() {
 			die(err)
 		}
 		write("Access.lean", s)
+	case "guards":
+		s, err := extractGuards(repo)
+		if err != nil {
+			die(err)
+		}
+		write("Guards.lean", s)
 	default:
 		die(fmt.Errorf("unknown target %q", what))
 	}
